@@ -42,6 +42,7 @@ import (
 	"flag"
 	"fmt"
 	"log"
+	"math"
 	"strings"
 	"sync"
 	"time"
@@ -78,8 +79,14 @@ func (t timeResult) worstCaseDrift() time.Duration {
 	if drift < 0 {
 		drift = -drift
 	}
-	drift += t.End.Sub(t.Start)
-	return drift
+	rtt := t.End.Sub(t.Start)
+	// Saturate instead of wrapping around: time.Time.Sub saturates at
+	// ±292 years, so negating or adding to its result can overflow int64 and
+	// make a clock which is centuries off look like it is in sync.
+	if drift < 0 || rtt < 0 || drift > math.MaxInt64-rtt {
+		return math.MaxInt64
+	}
+	return drift + rtt
 }
 
 func getServerTime(server, networkPassword string) (timeResult, health.ServerStatus, error) {
